@@ -780,6 +780,7 @@ class ParametersVisitor(LoggerProperty, ast.NodeVisitor):
 
         params_list = []
         removed_params: Set[str] = set()
+        popped_names: Set[str] = set()
         kwargs_value = kwargs_name and values_to_find[kwargs_name]
         kwargs_value_dump = kwargs_value and ast.dump(kwargs_value)
         for node, source in [(v, s) for k, v, s in values_found if k == kwargs_name]:
@@ -787,6 +788,8 @@ class ParametersVisitor(LoggerProperty, ast.NodeVisitor):
                 if ast_is_kwargs_pop_or_get(node, kwargs_value_dump):
                     param = self.get_kwargs_pop_or_get_parameter(node, self.component, self.parent, self.doc_params)
                     params_list.append([param])
+                    if node.func.attr == "pop":  # type: ignore[attr-defined]
+                        popped_names.add(param.name)
                     continue
                 kwarg = ast_get_call_kwarg_with_value(node, kwargs_value)
                 params = []
@@ -804,7 +807,9 @@ class ParametersVisitor(LoggerProperty, ast.NodeVisitor):
                     get_param_args = self.get_node_component(node, source)
                     if get_param_args:
                         params = get_signature_parameters(*get_param_args, logger=self.logger)
-                params = remove_given_parameters(node, params, removed_params)
+                removed_here: Set[str] = set()
+                params = remove_given_parameters(node, params, removed_here)
+                removed_params.update(removed_here - popped_names)  # popped before the call: still accepted
                 if params:
                     self.add_node_origins(params, node)
                     params_list.append(params)
